@@ -150,6 +150,10 @@ def front_jump_cross(ob, paths, front_var, time_var, names=('density', 'velocity
             front = _front_between(ci, cj, front_var)
             if front is None:
                 continue
+            ai = set(ci.args) if ci.op == 'and' else {ci}
+            aj = set(cj.args) if cj.op == 'and' else {cj}
+            # what both branches share (stub contracts, constructor decisions), minus anything about the position
+            common = [a for a in (ci.args if ci.op == 'and' else (ci,)) if a in aj and front_var not in T.free_vars(a)]
             sub = {T.var(front_var): front}
             D = Df.d(front, time_var)
             def st(o):
@@ -164,7 +168,7 @@ def front_jump_cross(ob, paths, front_var, time_var, names=('density', 'velocity
             rh_claims(c, 'front %s' % T.show(front, 60), a, b, Dd)
             for label, ct in c.claims:
                 lab = label.split(' RH ')[-1]
-                out.append(('shock RH ' + lab, [], ct, _replay_via_claims(ob, 'shock RH ' + lab, front)))
+                out.append(('shock RH ' + lab, common, ct, _replay_via_claims(ob, 'shock RH ' + lab, front)))
     return out
 
 
@@ -503,6 +507,96 @@ class EHEPFront(Obligation):
         return out
 
 
+class _NewtonStub(object):
+    """newton_solver contract: solve() returns an arbitrary state with F(state) == 0"""
+
+    def __init__(self):
+        self.function = None
+
+    def set_function(self, f):
+        self.function = f
+
+    def set_new_initial_guess(self, g):
+        self.guess = g
+
+    def set_new_tolerance(self, e):
+        pass
+
+    def solve(self, verbose=False, output_file=None):
+        from symx.engine import current
+        ex = current()
+        n = len(self.guess)
+        x = np.empty(n, dtype=object)
+        for i in range(n):
+            x[i] = ex.fresh('newton')
+        F = self.function.F(list(x))
+        for i in range(n):
+            ex.assume(T.eq(term_of(F[i]), T.ZERO))
+        # physically reasonable root: compressed, outward-moving shock (the iteration's starting guess has
+        # positive density and speed); which root Newton converges to is outside the claim
+        ex.assume(T.gt(term_of(x[0]), T.ZERO))
+        ex.assume(T.gt(term_of(x[2]), T.ZERO))
+        return {'solution': x}
+
+
+class BBNohShock(Obligation):
+    uses_derivatives = True
+
+    def __init__(self, ename, sym_):
+        from . import C16
+        self.C16 = C16
+        self.ename, self.sym = ename, sym_
+        self.m = H.mod(C16.BBM)
+        self.id = 'C02.nohbb.%s.m%d' % (ename.replace('_eos', ''), sym_)
+        self.modules = [self.m, H.mod(C16.EOSM), H.mod(C16.RESM)]
+        self.extra_shim = {'ExactSolution': Recorder, 'print': H.quiet_print}
+        self.functions = [self.m.NohBlackBoxEos.solve_jump_conditions, self.m.NohBlackBoxEos._run]
+        self.bounds = 'rho0, u0<0, EOS constants, r, t symbolic; symmetry fixed; Newton solve replaced by its contract F(x*)=0, rho*>0, D>0'
+        self.skip_validation = True
+        self.max_paths = 60
+
+    def _solver(self, mk):
+        eos = self.C16.make_eos(self.ename, mk)
+        ic = {'density': mk('rho0'), 'velocity': mk('u0'), 'pressure': 0, 'symmetry': self.sym}
+        s = self.m.NohBlackBoxEos(eos, ic, geometry=self.sym + 1, rho0=mk('rho0'), u0=mk('u0'))
+        if Mode.symbolic(mk):
+            s.solver = _NewtonStub()
+        else:
+            s.set_new_solver_initial_guess([4.0 * float(mk('rho0')), max(1.0, float(mk('rho0')) * float(mk('u0')) ** 2), abs(float(mk('u0')))])
+        return s
+
+    def build(self, mk):
+        s = self._solver(mk)
+        out = {}
+        if Mode.symbolic(mk):
+            out.update(H.first(H.run_1d(s, mk)))
+        else:
+            t = mk('t')
+            s.solve_jump_conditions()
+            rs = float(s.shock_speed) * t
+            out['D'] = float(s.shock_speed)
+            for side, fac in (('in', 1 - 1e-9), ('out', 1 + 1e-9)):
+                fl = H.first(H.run_1d(s, lambda n, fac=fac: rs * fac if n == 'r' else mk(n)))
+                for k, v in fl.items():
+                    out[side + '_' + k] = float(v)
+        return out
+
+    def domain(self, V):
+        d = [T.lt(V('u0'), T.ZERO), T.gt(V('rho0'), T.ZERO), T.gt(V('r'), T.ZERO), T.gt(V('t'), T.ZERO)]
+        d += [x for x in self.C16.EOS[self.ename][1](V) if 'rho' not in T.free_vars(x)]
+        return d
+
+    def claims(self, cx):
+        if cx.symbolic:
+            return
+        a = tuple(cx['in_' + k] for k in ('density', 'velocity', 'pressure', 'specific_internal_energy'))
+        b = tuple(cx['out_' + k] for k in ('density', 'velocity', 'pressure', 'specific_internal_energy'))
+        rh_claims(cx, 'shock', a, b, cx['D'])
+
+    def cross(self, paths, vals):
+        return front_jump_cross(self, paths, front_var='r', time_var='t')
+
+
 def obligations(tier):
     obs = []
     pairs = R.GAMMA_PAIRS_QUICK if tier == 'quick' else R.GAMMA_PAIRS_FULL
@@ -522,4 +616,7 @@ def obligations(tier):
     obs.append(SDRZFluxes())
     obs.append(MaderCJ())
     obs.append(EHEPFront())
+    for ename in ('ideal_gas_eos', 'stiffened_gas_eos', 'noble_abel_eos', 'carnahan_starling_eos'):
+        for m in (0, 1, 2):
+            obs.append(BBNohShock(ename, m))
     return obs
